@@ -54,3 +54,88 @@ def general_pool():
         if s not in seen:
             seen.append(s)
     return seen
+
+
+# ---------------------------------------------------------------------------------------------
+# AST pool for the reference model (vlib/refmodel.py)
+import random  # noqa: E402
+from . import refmodel as rm  # noqa: E402
+
+OPS = ['', '=', '~=', '|=', '^=', '$=', '*=', '!=']
+OPERANDS = ['', 'x', 'xy', 'x y', 'X', 'x-y', 'y']
+STRUCT = ['root', 'empty', 'first-child', 'last-child', 'only-child', 'first-of-type', 'last-of-type', 'only-of-type']
+NTHS = [(2, 1), (0, 2), (-1, 2), (1, 2), (2, 0), (3, -1), (0, 1), (-2, 3), (1, 0)]
+
+
+def _atom(r):
+    k = r.randrange(10)
+    if k == 0:
+        return rm.comp(tag=r.choice(['a', 'b', '*']))
+    if k == 1:
+        return rm.comp(ids=[r.choice(['i1', 'i2'])])
+    if k == 2:
+        return rm.comp(classes=r.sample(['k', 'm'], r.choice([1, 1, 2])))
+    if k == 3:
+        op = r.choice(OPS)
+        flag = r.choice([None, None, 'i', 's']) if op else None
+        return rm.comp(tag=r.choice([None, 'a']), attrs=[(None, r.choice(['t', 't', 'T', 'type']), op,
+                                                         r.choice(OPERANDS) if op else '', flag)])
+    if k == 4:
+        return rm.comp(tag=r.choice([None, 'a', 'b']), pseudos=[(r.choice(STRUCT),)])
+    if k == 5:
+        a, b = r.choice(NTHS)
+        kind = r.choice(['nth-child', 'nth-last-child', 'nth-of-type', 'nth-last-of-type'])
+        return rm.comp(pseudos=[('nth', kind, a, b, None)])
+    if k == 6:
+        return rm.comp(tag=r.choice(['a', 'b']), classes=[r.choice(['k', 'm'])])
+    if k == 7:
+        return rm.comp(tag='*', pseudos=[(r.choice(STRUCT),)])
+    if k == 8:
+        return rm.comp(tag=r.choice(['A', 'B']))
+    return rm.comp(tag=r.choice(['a', 'b']), ids=['i1'])
+
+
+def _compound(r, depth):
+    c = _atom(r)
+    if depth > 0 and r.random() < 0.55:
+        k = r.randrange(6)
+        if k <= 2:
+            name = ['not', 'is', 'where'][k] if r.random() < 0.9 else 'matches'
+            c['pseudos'].append((name, [_complex(r, depth - 1) for _ in range(r.choice([1, 1, 2]))]))
+        elif k <= 4:
+            c['pseudos'].append(('has', [(r.choice([' ', '>', '+', '~']), _complex(r, depth - 1))
+                                         for _ in range(r.choice([1, 1, 2]))]))
+        else:
+            a, b = r.choice(NTHS)
+            c['pseudos'].append(('nth', r.choice(['nth-child', 'nth-last-child']), a, b,
+                                 [_complex(r, 0) for _ in range(r.choice([1, 2]))]))
+    return c
+
+
+def _complex(r, depth):
+    n = r.choice([1, 1, 1, 2, 2, 3])
+    cx = [_compound(r, depth)]
+    for _ in range(n - 1):
+        cx.append((r.choice([' ', '>', '+', '~']), _compound(r, depth)))
+    return cx
+
+
+def ast_pool(n, seed=0, depth=2):
+    """n selector lists (each a list of complex selectors) plus a fixed set of regression shapes."""
+    r = random.Random(1000 + seed)
+    fixed = [
+        [[rm.comp(tag='*'), ('>', rm.comp(tag='a'))]],
+        [[rm.comp(pseudos=[('not', [[rm.comp(tag='b')]])]), ('>', rm.comp(tag='a'))]],
+        [[rm.comp(tag='*'), (' ', rm.comp(tag='a'))]],
+        [[rm.comp(attrs=[(None, 't', '^=', '', None)])]],
+        [[rm.comp(attrs=[(None, 't', '$=', '', None)])]],
+        [[rm.comp(attrs=[(None, 't', '*=', '', None)])]],
+        [[rm.comp(pseudos=[('has', [('>', [rm.comp(tag='*')])])])]],
+        [[rm.comp(pseudos=[('root',)]), ('>', rm.comp(tag='*'))]],
+        [[rm.comp(pseudos=[('not', [[rm.comp(pseudos=[('root',)])]])])]],
+    ]
+    out = list(fixed)
+    while len(out) < n + len(fixed):
+        lst = [_complex(r, depth) for _ in range(r.choice([1, 1, 1, 2]))]
+        out.append(lst)
+    return out
